@@ -560,6 +560,40 @@ def task_numeric_int_boxes(tier, seed):
     return [ob(oid, "discharged", kind="bounded", engine="smallscope", backend="numeric-contract", evaluations=nev, sample={"cases": N})]
 
 
+def task_numeric_box_reuse(tier, seed):
+    """The SAME box ndarray object (and the same inverse-box ndarray object) edited in place between calls: every distance must be the
+    minimum-image distance for the box as it is at THAT call."""
+    from gaddlemaps.components import AtomGro, Residue
+    rng = np.random.default_rng(391 + seed)
+    N = 40 if tier == "quick" else 400
+    first, nbad, nev = None, 0, 0
+    for t in range(N):
+        for name in ("box", "inverse box with inv=True"):      # consecutive calls with ONE array object, nothing else in between
+            arr = np.eye(3)
+            for step in range(3):
+                L = rng.uniform(1.0, 12.0, 3)
+                box = np.diag(L)
+                arr[:] = box if name == "box" else np.linalg.inv(box)       # in place: the object identity does not change
+                a = rng.uniform(-1, 1, 3) * L
+                b = a + rng.uniform(-2.4, 2.4, 3) * L
+                if not _far_from_tie(a, b, box):
+                    continue
+                want = brute_min_image(a, b, box)
+                res = Residue([AtomGro([1, "RES", "A", 1] + [float(x) for x in a])])
+                got = float(res.distance_to(np.array(b), box_vects=arr, inv=(name != "box")))
+                nev += 1
+                if abs(got - want) > 1e-9 * max(1.0, float(L.max()), float(np.abs(b - a).max())):
+                    nbad += 1
+                    if first is None:
+                        first = (f"call {step + 1} with the same {name} array object edited in place (edges now {L.tolist()}): distance {got!r}, "
+                                 f"minimum over images {want!r}", {"mode": "box-reuse", "seed": seed, "tier": tier, "signature": "box-reuse"})
+    oid = f"{PROP}/distance_to/bounded.same-box-array-object-edited-in-place-between-calls"
+    if first:
+        return [ob(oid, "refuted", kind="bounded", engine="smallscope", backend="numeric-contract", evaluations=nev,
+                   reason=f"{nbad}/{nev} evaluations violate; first: {first[0]}", cex=first[1])]
+    return [ob(oid, "discharged", kind="bounded", engine="smallscope", backend="numeric-contract", evaluations=nev, sample={"scenarios": N})]
+
+
 def task_numeric_reuse(tier, seed):
     """The same Residue objects used for several distances with their atoms moved in between -- through the residue-level setter, through a
     live atom view (res[i].position = p), by Residue.move: every distance must be the minimum-image distance of the ACTUAL centres."""
@@ -703,12 +737,13 @@ def tasks(prop, tier, seed):
         ("distance_to/numeric", task_numeric, (tier, seed), lim),
         ("distance_to/numeric-reuse", task_numeric_reuse, (tier, seed), lim),
         ("distance_to/numeric-int-boxes", task_numeric_int_boxes, (tier, seed), lim),
+        ("distance_to/numeric-box-reuse", task_numeric_box_reuse, (tier, seed), lim),
     ]
 
 
 def replay(prop, cex):
-    if cex.get("mode") in ("reuse", "int-box"):
-        r = (task_numeric_reuse if cex["mode"] == "reuse" else task_numeric_int_boxes)(cex.get("tier", "quick"), cex.get("seed", 0))
+    if cex.get("mode") in ("reuse", "int-box", "box-reuse"):
+        r = {"reuse": task_numeric_reuse, "int-box": task_numeric_int_boxes, "box-reuse": task_numeric_box_reuse}[cex["mode"]](cex.get("tier", "quick"), cex.get("seed", 0))
         bad = [o for o in r if o.get("status") == "refuted"]
         return {"reproduced": bool(bad), "observed": bad[0].get("reason") if bad else None,
                 "expected": "every distance is the minimum-image distance of the residues' actual centres", "inputs": cex}
